@@ -104,7 +104,7 @@ def run(ctx, rep: Report, deep: bool = False):
     rep.rule = (
         "exhaustive: make_safe_name / make_export_name on every string of length <= 3 (thorough: <= 4) over an 18-character alphabet containing / \\ . : \" ( ) # + a control character; "
         "sanitize_names_general (both passes) on every sibling list of length <= 3 (thorough: <= 4) from a 20-name near-collision pool (names equal after sanitising, equal to a generated '(n)' form, equal to a stereo stem); "
-        "random ASCII / AKAI-alphabet names and lists; CDDA end-to-end exports with hostile TITLEs ('../x', separators, duplicates); distinct = distinct op line; non-trivial = list with a collision or a name that needs sanitising"
+        "the whole naming pipeline of a directory (export names, then the stereo merge) on sibling lists from the same pool: written names pairwise distinct; random ASCII / AKAI-alphabet names and lists; CDDA end-to-end exports with hostile TITLEs ('../x', separators, duplicates); distinct = distinct op line; non-trivial = list with a collision or a name that needs sanitising"
     )
     cases = []
     maxlen = 4 if full else 3
@@ -143,6 +143,25 @@ def run(ctx, rep: Report, deep: bool = False):
             rep.feat("sibling_lists_exhaustive")
             if len(set(lst)) < len(lst):
                 rep.feat("lists_with_duplicates")
+    # the whole naming pipeline of one directory: export names, then the stereo merge (S59): the names of what is
+    # written - merged pairs under their stem, everything else under its export name - must be pairwise distinct
+    cnt = 0
+    for L in range(2, maxl + 1):
+        for lst in itertools.product(FN.NEAR_POOL, repeat=L):
+            cnt += 1
+            if L >= 3 and cnt % (11 if L == 4 else 3) != ctx.seed % (11 if L == 4 else 3):
+                continue
+            got = FN.dedupe_real("export", [(x, True) for x in lst])
+            if isinstance(got, str):
+                continue
+            groups = FN.combine_real(got)
+            out_names = [got[g[1]] if g[0] == "m" else g[3] for g in groups]
+            rep.evaluations += 1
+            rep.feat("directory_pipeline")
+            if any(g[0] == "p" for g in groups):
+                rep.feat("directory_pipeline_with_pair")
+            if len(set(out_names)) != len(out_names):
+                rep.findings.append(Finding("written-names-collide-after-stereo-merge", {"names": list(lst), "export_names": got, "written": out_names}))
     for i in range(ctx.n(300, 3000)):
         L = rng.randint(1, 8)
         items = [(FN.random_name(rng), rng.random() < 0.7) for _ in range(L)]
@@ -167,7 +186,7 @@ def run(ctx, rep: Report, deep: bool = False):
     if ctx.model_available:
         compare_family(rep, "names", cases, nontrivial=lambda c: True, exhaustive=True)
     rep.exhaustive = True
-    rep.required_features = ["strings_exhaustive", "sibling_lists_exhaustive", "lists_with_duplicates", "cdda_hostile_titles"]
+    rep.required_features = ["strings_exhaustive", "sibling_lists_exhaustive", "lists_with_duplicates", "cdda_hostile_titles", "directory_pipeline_with_pair"]
 
 
 def search(ctx, rep: Report):
